@@ -25,7 +25,8 @@ THEOREMS = ["C11_lists_aligned", "C11_rows_are_engine_answers", "C11_transcript_
             "C11_labels_by_parity", "C11_errors_excluded", "C11_loop_is_relation",
             "C11_answer_of_tree_reads", "C11_real_engine_transcript_legal", "C11_real_engine_rows_partial",
             "C11_real_engine_answers_good_partial", "C11_real_engine_exact_solver_rows_partial",
-            "C11_transcript_positions_wf", "C11_transcript_positions_encodable"]
+            "C11_transcript_positions_wf", "C11_transcript_positions_encodable",
+            "C11_source_play_one_game_eq", "C11_source_play_outcomes", "C11_source_results_eq", "C11_source_logits_agrees", "C11_source_transcript_chain", "C11_source_stops_exactly", "C11_source_result_correct", "C11_source_labels_correct"]
 MODEL_TARGETS = ["model/Tak.vo", "model/Road.vo", "model/SelfPlay.vo", "model/Harness.vo", "model/Lit.vo"]
 TRUSTED_BASE = [
     "the engine is an input stream: per analysed position the recorder reads [c.move for c in tree.children], "
@@ -731,3 +732,21 @@ def replay(run, rp):
     return {"violates": bool(failing or shard_fail or clauses), "ending_class": cls, "oracle_violations": clauses,
             "model_disagrees": bool(failing), "impl_output": _observed_json(g),
             "model_view": cs.model_view(_case_term(g)) if failing else None}
+
+
+# ---- translator tie (T): the C11_source_* theorems quantify over functions REGENERATED FROM THE SOURCE; t11's
+# correspondence validates the semantics library and the translation scheme on every run.
+from . import t11 as _t11  # noqa: E402
+
+MODEL_TARGETS = sorted(set(list(MODEL_TARGETS) + list(_t11.MODEL_TARGETS)))
+TRUSTED_BASE = list(TRUSTED_BASE) + list(getattr(_t11, "TRUSTED_BASE", []))
+_c11_correspondence = correspondence
+
+
+def pregen(run):
+    return _t11.pregen(run)
+
+
+def correspondence(run):
+    _c11_correspondence(run)
+    _t11.correspondence(run)
